@@ -124,7 +124,11 @@ func c13Body(c c13Case, o *c13Obs) {
 		}
 	}
 	var causeAt time.Duration
+	windowClosed := false
 	cause := func() {
+		if windowClosed {
+			return // the position lies beyond the observation window: nothing is injected, nothing is judged
+		}
 		o.causeFired = true
 		causeAt = vsched.NowOffset()
 		switch c.Cause {
@@ -136,6 +140,13 @@ func c13Body(c c13Case, o *c13Obs) {
 			half := rawFrom(peer, self, "0", 9)
 			cn.feed(half[:len(half)/2])
 			cn.readErr = errInjected
+		case "nomsgtype":
+			// a correctly framed message without MsgType: the handler loop ends with an error
+			cn.feed(frameFields([]fld{{"49", peer}, {"56", self}, {"34", "7"}, {"58", "no type"}}))
+			go func() {
+				time.Sleep(2 * time.Second)
+				cn.eof = true // ... and the peer closes a little later
+			}()
 		case "writeerr":
 			cn.blockW = false
 			cn.writeErr = errInjected
@@ -159,6 +170,7 @@ func c13Body(c c13Case, o *c13Obs) {
 	time.Sleep(60 * time.Second)
 	vsched.Settle()
 	vsched.MarkSpanEnd()
+	windowClosed = true
 	if o.causeFired && vsched.NowOffset()-causeAt < 60*time.Second {
 		// the cause fired late in the window (idle positions are time jumps): the settling time of
 		// 60 s counts from the cause
@@ -215,6 +227,7 @@ func c13Check(c c13Case, o *c13Obs) (string, string) {
 		return "socket-not-closed" + blk, det
 	}
 	peerCaused := c.Cause == "eof" || c.Cause == "reset" || c.Cause == "readerr" || c.Cause == "writeerr" || c.Cause == "writeblock"
+	// (a message without MsgType ends the handler loop with an error: the statement promises no notification for that)
 	if peerCaused && o.hdisc+o.stopped+o.sdisc == 0 {
 		return "no-disconnect-notification" + blk, det
 	}
@@ -265,7 +278,7 @@ func runC13(R *vlib.Out) {
 	thorough := *vlib.Tier == "thorough"
 	points := []string{"nologon", "logged", "inbound2", "sends2", "logout"}
 	// Session.Stop is not among the endings the statement lists (it only cancels the session context) and is not judged here
-	causes := []string{"eof", "reset", "readerr", "writeerr", "writeblock", "close", "hstop"}
+	causes := []string{"eof", "reset", "readerr", "writeerr", "writeblock", "close", "hstop", "nomsgtype"}
 	bufs := []int{0, 1, 10}
 	unit := 0
 	for _, role := range []string{"ini", "acc"} {
@@ -286,8 +299,12 @@ func runC13(R *vlib.Out) {
 						maxPos = vsched.LastArmSpan
 						_ = r
 					}
-					if maxPos > 400 {
-						maxPos = 400
+					capPos := 400
+					if thorough {
+						capPos = 1500
+					}
+					if maxPos > capPos {
+						maxPos = capPos
 					}
 					stride := 1
 					if !thorough && maxPos > 120 {
@@ -330,13 +347,46 @@ func runC13(R *vlib.Out) {
 		// delay-bounded deviations on top of selected positions
 		bound := 1
 		var scs []c13Case
-		for _, role := range []string{"ini", "acc"} {
-			for _, pt := range []string{"inbound2", "sends2", "logged"} {
-				for _, cause := range []string{"hstop", "eof", "close", "writeerr"} {
-					for _, pos := range []int{0, 3, 9} {
-						scs = append(scs, c13Case{Role: role, Buf: 0, Point: pt, Cause: cause, Pos: pos})
+		if thorough {
+			for _, role := range []string{"ini", "acc"} {
+				for _, buf := range []int{0, 1} {
+					for _, pt := range points {
+						for _, cause := range causes {
+							for _, pos := range []int{0, 1, 2, 3, 5, 8, 13, 21, 34} {
+								scs = append(scs, c13Case{Role: role, Buf: buf, Point: pt, Cause: cause, Pos: pos})
+							}
+						}
 					}
 				}
+			}
+		} else {
+			for _, role := range []string{"ini", "acc"} {
+				for _, pt := range []string{"inbound2", "sends2", "logged"} {
+					for _, cause := range []string{"hstop", "eof", "close", "writeerr"} {
+						for _, pos := range []int{0, 3, 9} {
+							scs = append(scs, c13Case{Role: role, Buf: 0, Point: pt, Cause: cause, Pos: pos})
+						}
+					}
+				}
+			}
+		}
+		if thorough {
+			// delay bound 2 on the cells with hand-offs in flight
+			var deep []c13Case
+			for _, role := range []string{"ini", "acc"} {
+				for _, pt := range []string{"inbound2", "sends2"} {
+					for _, cause := range []string{"hstop", "eof", "close"} {
+						deep = append(deep, c13Case{Role: role, Buf: 0, Point: pt, Cause: cause, Pos: 0})
+					}
+				}
+			}
+			for i, c := range deep {
+				if vlib.Expired() {
+					R.Cap("deadline")
+					break
+				}
+				scenarioBudget = vlib.Remaining() / time.Duration(2*(len(deep)-i)) // leave half for the bound-1 sweep
+				exploreSched(R, c13ScenarioOf(c, 2))
 			}
 		}
 		for i, c := range scs {
@@ -347,7 +397,7 @@ func runC13(R *vlib.Out) {
 				R.Cap("deadline")
 				break
 			}
-			scenarioBudget = vlib.Remaining() / time.Duration(len(scs)-i)
+			scenarioBudget = 8 * vlib.Remaining() / time.Duration(len(scs)-i) // most cells finish far below their share
 			exploreSched(R, c13ScenarioOf(c, bound))
 		}
 	}
